@@ -75,6 +75,80 @@ GENS = {"none": ("", "", None), "type": ("<T>", "", "T"), "bounded": ("<T: Clone
 # documented; they are not in the domain)
 
 
+# free-form items: kinds of item, bodies and parameter lists outside the descriptor language of MC_Attrs.tla
+EXTRA_ITEMS = [
+    "union U { a: i32, b: u32 }",
+    "enum E {}",
+    "enum E { A = 1, B = 5 }",
+    "#[repr(u8)] enum E { A, B }",
+    "struct S;",
+    "struct S();",
+    "struct S {}",
+    "struct S<'a>(&'a str);",
+    "struct S<'a, 'b: 'a, T: 'b + Clone>(&'a T, &'b str);",
+    "struct S<T>(std::marker::PhantomData<T>);",
+    "struct S<T: ?Sized>(Box<T>);",
+    "enum E<T> { A(T), B { x: Option<T> }, C(T, T), D }",
+    "enum E { A(), B {}, C }",
+    "#[ts(tag = \"t\")] enum E { A(), B {} }",
+    "#[ts(untagged)] enum E { A, B(), C {} }",
+    "#[ts(tag = \"t\", content = \"c\")] enum E { A(), B {}, C(i32, i32) }",
+    "#[ts(concrete(T = i32))] struct S<T> { xs: [T; 3] }",
+    "#[ts(concrete(T = i32))] struct S<T> { xs: Vec<[T; 2]>, ys: (T, Option<T>), zs: &'static [T] }",
+    "struct S<I: Iterator<Item = i32>> { #[ts(skip)] i: I, xs: [I::Item; 2], ys: Vec<I::Item> }",
+    "struct S { a: fn(i32) -> i32 }",
+    "struct S { a: *const i32 }",
+    "struct S { a: [i32] }",
+    "struct S { a: impl Clone }",
+    "struct S { a: dyn Clone }",
+    "struct S { a: ! }",
+    "struct S { a: _ }",
+    "struct S { a: (i32) }",
+    "struct S { a: ((i32, String),) }",
+    "struct S { a: [[i32; 2]; 3] }",
+    "struct S { a: &'static [&'static str] }",
+    "struct S { a: std::collections::HashMap<String, Vec<Option<Box<S>>>> }",
+    "struct S { r#a: i32, r#struct: i32 }",
+    "#[ts(rename_all = \"camelCase\")] struct S { r#type: i32, __: i32, _1: i32, A_B: i32 }",
+    "#[ts(rename = \"\")] struct S { a: i32 }",
+    "#[ts(export_to = \"\")] struct S { a: i32 }",
+    "#[ts(export_to = \"/\")] struct S { a: i32 }",
+    "#[ts(export_to = 5)] struct S { a: i32 }",
+    "#[ts(tag = \"\")] struct S { a: i32 }",
+    "#[ts(tag = \"a\")] struct S { a: i32 }",
+    "#[ts(concrete(T = i32))] struct S { a: i32 }",
+    "#[ts(concrete(T = i32))] struct S<T> { a: T }",
+    "#[ts(concrete(T))] struct S<T> { a: T }",
+    "#[ts(bound = \"T: Clone\")] struct S<T> { a: T }",
+    "#[ts(bound = \"not a bound\")] struct S<T> { a: T }",
+    "#[ts(crate = \"ts_rs\")] struct S { a: i32 }",
+    "#[ts(crate = \"::nowhere\")] struct S { a: i32 }",
+    "#[ts()] struct S { a: i32 }",
+    "#[ts] struct S { a: i32 }",
+    "#[ts = \"x\"] struct S { a: i32 }",
+    "#[ts(,)] struct S { a: i32 }",
+    "#[ts(rename)] struct S { a: i32 }",
+    "#[ts(rename = )] struct S { a: i32 }",
+    "#[ts(rename = \"A\", rename = \"B\")] struct S { a: i32 }",
+    "#[doc = 5] struct S { a: i32 }",
+    "#[doc(hidden)] struct S { a: i32 }",
+    "struct S { #[ts(type = \"\")] a: i32 }",
+    "struct S { #[ts(as = \"\")] a: i32 }",
+    "struct S { #[ts(as = \"not a type!\")] a: i32 }",
+    "struct S { #[ts(as = \"Option<_>\")] a: i32 }",
+    "struct S { #[ts(rename = \"\")] a: i32 }",
+    "struct S(#[ts(type = \"string\")] i32, #[ts(skip)] i32);",
+    "struct S(#[ts(skip)] i32);",
+    "struct S(#[ts(skip)] i32, #[ts(skip)] i32);",
+    "enum E { #[ts(skip)] A, #[ts(skip)] B }",
+    "enum E { A(#[ts(skip)] i32) }",
+    "enum E { A { #[ts(skip)] a: i32 } }",
+    "fn f() {}",
+    "type T = i32;",
+    "trait Tr {}",
+]
+
+
 def body_src(shape, fattrs, fty, extra=None, ident="a"):
     fa = " ".join(attr_src(a) for a in fattrs)
     t = FTY[fty]
@@ -213,11 +287,28 @@ def run(tier):
     out.update(compile_probe([(n, c["src"]) for n, c in rej[:150 if q else 1500]], "rej"))
     for n, verdict in out.items():
         cases[n]["compiled"] = verdict
+    for c in cases:
+        c["free"] = False
+    # free-form items: all expanded, all compiled (accepted ones must compile, rejected ones must be ordinary errors)
+    fres = macrodrv.expand(EXTRA_ITEMS, tag="c16x")
+    free = []
+    for n_, (s_, (kind, text)) in enumerate(zip(EXTRA_ITEMS, fres)):
+        free.append({"item": {"kind": "free"}, "src": s_, "real": "ERR" if kind == "BADITEM" else kind, "msg": text if kind != "OK" else "", "compiled": "na",
+                     "pred": "-", "documented": False, "free": True, "notrust": kind == "BADITEM"})
+    # (items rustc refuses with or without the derive - `!`, `_`, `impl Trait`, `dyn Trait` fields, a crate path that
+    # does not exist - only have to leave the derive without a panic)
+    invalid_anyway = ("a: !", "a: _", "a: impl ", "a: dyn ", "::nowhere")
+    fo = compile_probe([(k, c["src"]) for k, c in enumerate(free) if c["real"] == "OK" and not any(x in c["src"] for x in invalid_anyway)], "freeok")
+    fo.update(compile_probe([(k, c["src"]) for k, c in enumerate(free) if c["real"] == "ERR" and not c["notrust"]], "freerej"))
+    for k, verdict in fo.items():
+        free[k]["compiled"] = verdict
+    base_n = len(cases)
+    cases += free
     # ADJUDICATE
     tpath = os.path.join(vlib.TMP, "attrs-trace.ndjson")
-    vlib.write_ndjson(tpath, [{"item": c["item"], "real": c["real"], "compiled": c["compiled"]} for c in cases])
+    vlib.write_ndjson(tpath, [{"item": c["item"], "real": c["real"], "compiled": c["compiled"], "free": c["free"]} for c in cases])
     a = vlib.run_tlc("Trace_Attrs", "Trace_Attrs.cfg", workers=12, env={"VERIF_TRACE": tpath}, timeout=2400,
-                     tags=("BADPANIC", "BADSILENT", "BADCOMPILE", "BADENTRY", "DRIFT"), metatag="c16a")
+                     tags=("BADPANIC", "BADSILENT", "BADCOMPILE", "BADENTRY", "BADFREE", "DRIFT"), metatag="c16a")
     vlib.tlc_must_succeed(a, "Trace_Attrs")
     if a.distinct != len(cases) + 1:
         raise ToolError("adjudication judged %d of %d items" % (a.distinct - 1, len(cases)))
@@ -233,7 +324,12 @@ def run(tier):
                     "variant_skip": any(x["key"] == "skip" and x["val"] == "ok" for x in it["v"]),
                     "real": c["real"], "compiled": c["compiled"]}
             v.fail(desc, {"source": c["src"], "message": c["msg"], "model_outcome": c["pred"], "documented": c["documented"]})
-    drift = sorted(set(a.payloads("DRIFT")))
+    for k in sorted(set(a.payloads("BADFREE"))):
+        c = cases[k - 1]
+        v.fail({"prop": PROP, "tag": "BADFREE", "kind": "free-form item", "real": c["real"], "compiled": c["compiled"], "source": c["src"][:60]},
+               {"source": c["src"], "message": c["msg"]})
+    cases = cases[:base_n]
+    drift = sorted(k for k in set(a.payloads("DRIFT")) if k <= base_n)
     if drift:
         c = cases[drift[0] - 1]
         v.note("drift: %d items have an outcome class different from the transcription (e.g. %s -> %s, model %s)" % (len(drift), c["src"], c["real"], c["pred"]))
@@ -251,7 +347,8 @@ def run(tier):
            "items_compiled_by_rustc": sum(1 for c in cases if c["compiled"] != "na"),
            "rustc_verdicts": dict(Counter(c["compiled"] for c in cases if c["compiled"] != "na")),
            "must_be_diagnosed": sum(1 for c in cases if c["documented"]), "drift": len(drift),
-           "case_conversion_records": cov09["records_adjudicated"],
+           "case_conversion_records": cov09["records_adjudicated"], "free_form_items": len(free),
+           "free_form_outcomes": dict(Counter("%s/%s" % (c["real"], c["compiled"]) for c in free)),
            "exhaustive": True,
            "rule": "items = {struct, enum} x 6 field shapes x subsets (sizes per slice) of attribute palettes at container / variant / field level (valid keys, unknown keys, wrong value forms, ts and serde spellings) x field type next to `optional`; two further slices put generics (type / bounded / where / default / const / lifetime / two parameters) and unusual identifiers (raw, non-ASCII, underscores) on the items - all accepted ones of these are compiled by rustc; plus every identifier x rule of the C09 domain for the never-panics part"}
     vlib.write_evidence(PROP, tier, "model_checking", cov,
